@@ -116,7 +116,7 @@ void GridGlobal::recomputeTensorRefs(const MultiIndexSet &work){
 }
 
 void GridGlobal::makeGrid(int cnum_dimensions, int cnum_outputs, int depth, TypeDepth type, TypeOneDRule crule, const std::vector<int> &anisotropic_weights, double calpha, double cbeta, const char* custom_filename, const std::vector<int> &level_limits){
-    if (crule == rule_customtabulated){
+    if (crule == rule_customtabulated and custom_filename != nullptr){ // updateGrid() passes no filename, the table is already loaded
         custom.read(custom_filename);
     }
 
@@ -146,6 +146,10 @@ GridGlobal::GridGlobal(AccelerationContext const *acc, GridGlobal const *global,
 }
 
 void GridGlobal::setTensors(MultiIndexSet &&tset, int cnum_outputs, TypeOneDRule crule, double calpha, double cbeta){
+    // a tabulated rule with too few levels throws here, before the grid is modified
+    std::vector<int> new_max_levels = MultiIndexManipulations::getMaxIndexes(tset);
+    OneDimensionalWrapper new_wrapper(custom, *std::max_element(new_max_levels.begin(), new_max_levels.end()), crule, calpha, cbeta);
+
     clearGpuNodes();
     clearGpuValues();
     tensor_refs = std::vector<std::vector<int>>();
@@ -162,9 +166,9 @@ void GridGlobal::setTensors(MultiIndexSet &&tset, int cnum_outputs, TypeOneDRule
     rule = crule;
     alpha = calpha;  beta = cbeta;
 
-    max_levels = MultiIndexManipulations::getMaxIndexes(tensors);
+    max_levels = std::move(new_max_levels);
 
-    wrapper = OneDimensionalWrapper(custom, *std::max_element(max_levels.begin(), max_levels.end()), rule, alpha, beta);
+    wrapper = std::move(new_wrapper);
 
     MultiIndexManipulations::computeActiveTensorsWeights(tensors, active_tensors, active_w);
 
@@ -183,7 +187,12 @@ void GridGlobal::setTensors(MultiIndexSet &&tset, int cnum_outputs, TypeOneDRule
 }
 
 void GridGlobal::proposeUpdatedTensors(){
-    wrapper = OneDimensionalWrapper(custom, updated_tensors.getMaxIndex(), rule, alpha, beta);
+    try{
+        wrapper = OneDimensionalWrapper(custom, updated_tensors.getMaxIndex(), rule, alpha, beta);
+    }catch(std::runtime_error &){ // tabulated rule with too few levels: drop the proposal, the loaded grid is intact
+        clearRefinement();
+        throw;
+    }
 
     MultiIndexManipulations::computeActiveTensorsWeights(updated_tensors, updated_active_tensors, updated_active_w);
 
@@ -198,12 +207,17 @@ void GridGlobal::updateGrid(int depth, TypeDepth type, const std::vector<int> &a
     if ((num_outputs == 0) || points.empty()){
         makeGrid(num_dimensions, num_outputs, depth, type, rule, anisotropic_weights, alpha, beta, 0, level_limits);
     }else{
-        clearRefinement();
+        MultiIndexSet new_tensors = selectTensors((size_t) num_dimensions, depth, type, anisotropic_weights, rule, level_limits);
 
-        updated_tensors = selectTensors((size_t) num_dimensions, depth, type, anisotropic_weights, rule, level_limits);
-
-        if (!(updated_tensors - tensors).empty()){
-            updated_tensors += tensors;
+        if ((new_tensors - tensors).empty()){
+            clearRefinement();
+            updated_tensors = std::move(new_tensors);
+        }else{
+            new_tensors += tensors;
+            if (rule == rule_customtabulated or rule == rule_gausspatterson) // throws if the table is too short, nothing is modified yet
+                OneDimensionalWrapper(custom, new_tensors.getMaxIndex(), rule, alpha, beta);
+            clearRefinement();
+            updated_tensors = std::move(new_tensors);
             proposeUpdatedTensors();
         }
     }
